@@ -184,6 +184,7 @@ package jsonapi
 //@ ensures others: forall k string :: k != key && srIsField(sr, k) && k in old(mapdom(sr.data)) ==> k in sr.data && sr.data[k] == old(mapval(sr.data))[k]
 //@ ensures others-new: forall k string :: k != key && k in sr.data && !(k in old(mapdom(sr.data))) ==> (k in sr.Type.Attrs ==> isZeroVal(sr.data[k], sr.Type.Attrs[k].Type, sr.Type.Attrs[k].Nullable)) && (!(k in sr.Type.Attrs) ==> k in sr.Type.Rels && isZeroRel(sr.data[k], sr.Type.Rels[k]))
 //@ ensures checked: srChecked(sr)
+//@ ensures only-fields: old(sr.data == nil || (forall k string :: k in sr.data ==> sr.Type != nil && srIsField(sr, k))) ==> (forall k string :: k in sr.data ==> srIsField(sr, k))
 //@ ensures fresh-data: old(sr.data) == nil ==> fresh(sr.data)
 //@ ensures fresh-maps: (old(sr.Type) != nil && old(sr.Type.Attrs) == nil ==> fresh(sr.Type.Attrs)) && (old(sr.Type) != nil && old(sr.Type.Rels) == nil ==> fresh(sr.Type.Rels))
 //@ ensures new-maps-empty: (old(sr.Type) != nil && old(sr.Type.Attrs) == nil ==> (forall k string :: !(k in sr.Type.Attrs))) && (old(sr.Type) != nil && old(sr.Type.Rels) == nil ==> (forall k string :: !(k in sr.Type.Rels)))
